@@ -126,6 +126,17 @@ def _stable_part_ok(spec, rw, v):
     return sum(1 for m in rest if m > 1) == lm.num_forwards(spec)
 
 
+SPURIOUS = ":nonzero_change_in_model_without_trend"
+
+
+def _spurious_growth(subcheck, case, bucket, message):
+    """Known finding C05-spurious-growth: see known_findings.json."""
+    return bucket.endswith(SPURIOUS)
+
+
+FINDING_MATCHERS = {"spurious_growth": _spurious_growth}
+
+
 def _spec_for_variant(spec, v, overrides=None):
     s = copy.deepcopy(spec)
     for p in s["params"]:
@@ -293,7 +304,14 @@ def _check(case):
             # multiplicative equations (a level next to zero, or a growth factor that takes the path there within a
             # period or two); such underflow points are not steady states and are not judged
             return {"labels": ["degenerate_near_zero_solution"], "nontrivial": False}
-        _residual_check(col, sv, lv, ch, "steady:residual", f"(variant {v}, family {fam}, plan {case['plan']}, flat {case['flat']}, split {case['split']})")
+        # A model without any trend (no unit root) solved in growth mode (flat=False) that comes back with non-neutral
+        # steady changes: the growth-mode solver accepted a (level, change) pair that satisfies the equations at the
+        # dates it evaluates but not on the path (known finding C05-spurious-growth; own bucket so that every other
+        # residual failure is still reported)
+        neutral_ = 1.0 if spec["log"] else 0.0
+        spurious = rw is None and not case["flat"] and any(x is not None and not math.isnan(x) and abs(x - neutral_) > 1e-9 for x in ch.values())
+        _residual_check(col, sv, lv, ch, "steady:residual" + (SPURIOUS if spurious else ""),
+                        f"(variant {v}, family {fam}, plan {case['plan']}, flat {case['flat']}, split {case['split']}; steady changes {ch})")
         # planned quantities keep their assigned values
         for nm, val in fixed.items():
             col.check(abs(lv[nm] - val) <= 1e-12 * (1 + abs(val)), "plan:fixed_value_changed", lambda: f"{nm}: {lv[nm]!r} assigned {val!r}")
@@ -329,12 +347,16 @@ def _check(case):
             l2 = m2.get_steady_levels()
             if spec["log"] and any(not (1e-6 < pick(l2, nm, v) < 1e6) for v in range(nv) for nm in names):
                 raise ArithmeticError("the other run ended in a near-zero pseudo-solution (see above): not compared")
+            c2 = m2.get_steady_changes()
+            neutral_ = 1.0 if spec["log"] else 0.0
+            spurious2 = not case["flat"] and any(pick(c2, nm, v) is not None and not math.isnan(pick(c2, nm, v)) and abs(pick(c2, nm, v) - neutral_) > 1e-9
+                                                 for v in range(nv) for nm in names)
             for v in range(nv):
                 for nm in names:
                     a, b = pick(levels, nm, v), pick(l2, nm, v)
                     sc = abs(math.log(a)) if (spec["log"] and a > 0) else abs(a)
                     d = abs(math.log(a) - math.log(b)) if (spec["log"] and a > 0 and b > 0) else abs(a - b)
-                    col.check(d <= 1e-8 * (1 + sc), "blocks:on_off_differ", lambda: f"{nm} variant {v}: {a!r} vs {b!r} (split {case['split']} vs {other})\n{lm.source(spec)}")
+                    col.check(d <= 1e-8 * (1 + sc), "blocks:on_off_differ" + (SPURIOUS if spurious2 else ""), lambda: f"{nm} variant {v}: {a!r} vs {b!r} (split {case['split']} vs {other})\n{lm.source(spec)}")
         except Exception:  # noqa: BLE001
             pass
     # ---- metamorphic: variant k equals the single-variant model with variant k's parameters ----
